@@ -448,7 +448,15 @@ def _check_site(ctx, q, c, tbs, extra=None, site_label="", mtype=None, label=Non
                 continue
             code = si[1][0][1]
             kind, size = dt[1], dt[2]
-            ok = STRUCT_SIZE[code] == size and C.same(bnum, F.const(size)) and STRUCT_KIND[code] == NP_KIND[kind] and si[0] == dt[0]
+            bnum = C.norm(bnum)
+            formats_agree = STRUCT_SIZE[code] == size and STRUCT_KIND[code] == NP_KIND[kind] and si[0] == dt[0]
+            if formats_agree and not C.same(bnum, F.const(size)) and not bnum.is_const() and _unresolved_amount(bnum):
+                # the two formats agree; the number of bytes the struct side reads per value is not resolved to a number (an attribute
+                # or a call the size model does not compute): nothing is compared with it - not decided, never a violation
+                ctx.error(f"{nm}{site_label} [{key}, {bits}-bit keys]: the bytes per value read by the struct side are not resolved to a number", node,
+                          {"struct": ftxt, "numpy": dtxt, "bytes per value": repr(bnum)[:300]})
+                continue
+            ok = formats_agree and C.same(bnum, F.const(size))
             ctx.check(ok, f"{nm}{site_label} [{key}, {bits}-bit keys]: struct code '{code}' and numpy dtype '{kind}{size}' decode the same type from the same "
                           f"bytes per value on both sides of the 3000-value cut-over", node,
                       None if ok else {"struct": ftxt, "numpy": dtxt, "bytes per value read by the struct side": repr(C.norm(bnum)),
@@ -460,6 +468,10 @@ def _check_site(ctx, q, c, tbs, extra=None, site_label="", mtype=None, label=Non
                 # words per value (op4): a value occupies wper words of the key width
                 wper = T.numval(C.norm(rest[0]), tb)
                 bi = F.const(bits // 8)         # a word of the key width
+                if wper is None or not (C.norm(wper).is_const() or C.same(wper * bi, bnum)):
+                    if wper is None or _unresolved_amount(C.norm(wper)):
+                        ctx.error(f"{nm} [{key}, {bits}-bit keys]: the words a value occupies are not resolved to a number", node, repr(wper)[:300])
+                        continue
                 ok = wper is not None and bi is not None and wper.is_const() and bi.is_const() and C.same(wper * bi, bnum)
                 ctx.check(ok, f"{nm} [{key}, {bits}-bit keys]: a value occupies `wper` = {wper!r} words of {bi!r} bytes", node,
                           None if ok else {"bytes per value": repr(C.norm(bnum))})
@@ -497,6 +509,24 @@ def _check_site(ctx, q, c, tbs, extra=None, site_label="", mtype=None, label=Non
         rest = [d for d in C.walk_atoms(t[1][0]) if d not in mine]
         ok = all(d[0] == "s" for d in rest)        # (a literal cut-off is as good as a tunable one)
     ctx.check(ok, f"{nm}{site_label}: the switch compares the number of values with a setting (the cut-off), nothing read from the file", node, nontrivial=False)
+
+
+def _unresolved_amount(v):
+    """a number of bytes / words that still refers to something the size model did not turn into a number: an attribute of the object, the
+    attribute of a value (`.size`, `.itemsize`, ...), the result of a call, an element of a tuple"""
+    if not _rat(v):
+        return True
+    for d in C.walk_atoms(v):
+        if d[0] == "s" and ("." in d[1] and d[1][:1] not in "'\""):
+            return True
+        if d[0] == "fn" and (d[1].startswith("attr:") or d[1] == "tuple" or (d[1].startswith("call:") and d[1] not in ("call:len", "call:int"))):
+            return True
+        if d[0] == "fn" and d[1] == "idx" and len(d[2]) == 2 and not isinstance(d[2][0], str):
+            # an element of something that is not what a decode delivered (a tuple a helper returned, a selection between tuples, a name)
+            q = C.fn_parts(C._arg(d[2][0]))
+            if q is None or q[0] not in ("dec", "arr"):
+                return True
+    return False
 
 
 def _divisor(count):
